@@ -474,6 +474,18 @@ def r_member_lookup(P, rep):
         rep.undecided('R04.9', 'parse.c:get_struct_member', 'no path returns a named member')
 
 
+def _term_alignment(t):
+    """largest power of two the frame base is known to be a multiple of: 16 by the psABI (the value of %rsp at entry + 8 is a multiple of 16, the
+    prologue pushes 8 bytes), more only if the term is masked (`and $-N`)"""
+    if isinstance(t, tuple) and len(t) == 5 and t[0] == 'bin' and t[1] == 'and':
+        for m in (t[3], t[4]):
+            if isinstance(m, tuple) and m[0] == 'c' and isinstance(m[1], int):
+                v = m[1] & ((1 << 64) - 1)
+                if v and (v >> 63):
+                    return max(16, v & -v)
+    return 16
+
+
 def r_frame(cg, P, rep):
     """R04.5: frame layout: every local gets a home inside the frame, aligned to its own alignment (arrays of >= 16 bytes to 16),
     homes are pairwise disjoint, the frame size is a multiple of 16"""
@@ -521,6 +533,27 @@ def r_frame(cg, P, rep):
             if ok and stack_size % 16:
                 ok = False; msg = 'frame size %d is not a multiple of 16' % stack_size
             rep.ob('R04.5', key, ok, 'frame layout: %s' % msg, where=where, facts={'homes': homes, 'stack_size': stack_size})
+            # the offsets are multiples of the alignment RELATIVE TO %rbp: the address is aligned only as far as the frame base is. The psABI makes
+            # %rbp a multiple of 16 after `push %rbp; mov %rsp, %rbp`; more needs a realignment (`and $-N, ...`) of the base the locals are addressed from
+            need = max([al for v, sz, al in objs] or [1])
+            if ok and need > 16:
+                bkey = '%s:emit_text:frame-base-alignment/locals-aligned-above-16' % U
+                try:
+                    from ..chibi import linearise
+                    from ..x86 import Machine
+                    nodes = linearise(tr)
+                    cut = [i for i, n in enumerate(nodes) if n[0] == 'pseudo']
+                    fin = Machine(raw_rsp=True).run(nodes[:cut[0]], lambda s: None, lambda s, n: None) if cut else []
+                except Unknown as e:
+                    rep.undecided('R04.5', bkey, str(e), where=where); continue
+                if len(fin) != 1:
+                    rep.undecided('R04.5', bkey, '%d paths through the prologue' % len(fin), where=where); continue
+                base_al = _term_alignment(fin[0].reg['rbp'])
+                big = [(v.label, al, v.fields.get('offset')) for v, sz, al in objs if al > base_al]
+                rep.ob('R04.5', bkey, not big,
+                       'a local with alignment %d is placed at %s(%%rbp), a multiple of %d below the frame base, but the prologue leaves the frame base %r only %d-aligned (the psABI guarantee after '
+                       '`push %%rbp; mov %%rsp, %%rbp`; no realignment is emitted): `_Alignas(32)` / `_Alignas(64)` locals (and every type whose alignment exceeds 16) live at addresses that are multiples of 16 only'
+                       % ((big[0][1], big[0][2], big[0][1], fin[0].reg['rbp'], base_al) if big else (0, 0, 0, None, 0)), where=where, facts={'prologue': tr.text()[:12], 'locals': big})
 
 
 def r_alloca(cg, rep, rule='R04.7'):
@@ -988,6 +1021,8 @@ def run(P, rep, tier):
     sub5 = _initializer_report(P)
     r_bitfield_unit(P, rep, sub8, sub5)
     r_members_inside(P, rep, sub8)
+    from ..lib_c04_decl import r_bitfield_unit_inside
+    r_bitfield_unit_inside(P, rep, 'R04.11')
     r_static_home(cg, rep)
     r_init_designation(P, rep, sub5)
     r_vla_size(P, rep)
@@ -1013,3 +1048,14 @@ def run(P, rep, tier):
     r_lvar_registered(P, rep, 'R04.17')
     r_frame_twins(cg, P, rep, 'R04.17')
     r_alignas_reaches_object(P, rep)
+    from ..lib_c04_decl import r_align_frame, r_member_not_vla, r_constant_bound
+    rep.rule('R04.22', 'the alignment a declaration gave an object stays: Obj.align / Member.align is written by the code that creates the object, by a store of the declared value (VarAttr.align) or by a '
+                       'raise-only update; a function that is handed the finished object (initialiser parsing, code generation) never overwrites it (frame condition of R04.18, whose interpretation of the '
+                       'declaration sites cuts those functions away)', floor=4)
+    r_align_frame(P, rep, 'R04.22')
+    rep.rule('R04.23', 'no member of a struct/union has a variable-length array type: struct_members() diagnoses a declarator that yields one (C11 6.7.2.1p9) - the layout places members by Type.size, which for '
+                       'a VLA type is only the placeholder of its hidden pointer', floor=1)
+    r_member_not_vla(P, rep, 'R04.23')
+    rep.rule('R04.24', 'an array declared with an integer constant expression as bound gets a fixed-size array type of bound * sizeof(element) bytes: the predicate array_dimensions() asks accepts the constant '
+                       'expressions the compiler\'s own <stddef.h> produces for offsetof, array elements and nested designators included (shared with C08 R08.5)', floor=3)
+    r_constant_bound(P, rep, 'R04.24')
